@@ -235,6 +235,23 @@ class Types:
         return set()
 
 
+def kind_names(analysis, quals):
+    """Short class names of a set of class quals, where a helper subclass of a packet class that keeps the inherited codec counts as
+    that packet class (class _Keepalive(PINGREQ) with timers of its own is a PINGREQ on the wire)."""
+    prog = analysis.prog
+    names = {n for n, _d in SPEC_TYPES.values()} | {"PINGRES"}
+    out = set()
+    for q in quals:
+        ci = prog.classes.get(q)
+        short_ = q.split(".")[-1]
+        if ci is not None and short_ not in names and "encode" not in ci.methods and "decode" not in ci.methods:
+            anc = [c.qual.split(".")[-1] for c in prog.mro(ci)[1:] if hasattr(c, "qual") and c.qual.split(".")[-1] in names]
+            if anc:
+                short_ = anc[0]
+        out.add(short_)
+    return out
+
+
 def types(analysis):
     if "_types" not in analysis.__dict__:
         analysis._types = Types(analysis)
